@@ -861,10 +861,16 @@ class TermBuilder(object):
             key = ('attr', base, e.attr)
             if key in store:
                 return store[key]
+            if base == ('self',) and getattr(self, 'self_cls', None) is not None:
+                _holder, node_ = self.idx.lookup_attr(self.self_cls, e.attr)     # class-level literal of the concrete class
+                if isinstance(node_, (ast.Tuple, ast.List, ast.Constant)):
+                    return self._b(node_, {}, {})
             return key
         if isinstance(e, ast.Subscript):
             base = b(e.value)
             idx_t = b(e.slice) if not isinstance(e.slice, ast.Slice) else ('opaque', 'slice:' + unparse(e.slice))
+            if base[0] in ('tuple', 'list') and idx_t[0] == 'num' and idx_t[1].denominator == 1 and -len(base[1]) <= idx_t[1] < len(base[1]):
+                return base[1][int(idx_t[1])]
             if base == ('attr', ('self',), 'config') and idx_t[0] == 'str':
                 key = ('cfg', idx_t[1])
                 return store.get(key, key)
@@ -922,11 +928,44 @@ class TermBuilder(object):
                     got = object_method(self.idx, recv, f.attr, args, kwargs)
                     if got is not None:
                         return got
+                    fld = object_field(self.idx, recv, f.attr)       # a callable kept in a frozen field (e.g. a bound method)
+                    if fld is not None:
+                        return self._apply(fld, args, kwargs)
                 return ('meth', recv, f.attr, args, kwargs)
+            if isinstance(f, ast.Name) and f.id == 'getattr' and f.id not in env and len(e.args) == 2 and not e.keywords:
+                tgt, nm = b(e.args[0]), b(e.args[1])
+                if nm[0] == 'str':
+                    key = ('attr', tgt, nm[1])
+                    return store.get(key, key)
+            # next(<elt> for <targets> in <literal table> if <conds>[, default]): the element of the first row whose conditions hold
+            if isinstance(f, ast.Name) and f.id == 'next' and f.id not in env and 1 <= len(e.args) <= 2 and not e.keywords \
+                    and isinstance(e.args[0], ast.GeneratorExp) and len(e.args[0].generators) == 1:
+                gen = e.args[0].generators[0]
+                seq = b(gen.iter)
+                names = [gen.target.id] if isinstance(gen.target, ast.Name) else \
+                    [t_.id for t_ in gen.target.elts] if isinstance(gen.target, (ast.Tuple, ast.List)) and all(isinstance(t_, ast.Name) for t_ in gen.target.elts) else None
+                if seq[0] in ('tuple', 'list') and names is not None and len(seq[1]) <= 32:
+                    out = b(e.args[1]) if len(e.args) == 2 else ('opaque', 'StopIteration')
+                    okay = True
+                    for row in reversed(seq[1]):
+                        env2 = dict(env)
+                        if isinstance(gen.target, ast.Name):
+                            env2[names[0]] = row
+                        elif row[0] in ('tuple', 'list') and len(row[1]) == len(names):
+                            env2.update(zip(names, row[1]))
+                        else:
+                            okay = False
+                            break
+                        conds = [self._b(c_, env2, store) for c_ in gen.ifs]
+                        elt = self._b(e.args[0].elt, env2, store)
+                        cond = ('bool', True) if not conds else conds[0] if len(conds) == 1 else ('and', tuple(conds))
+                        out = elt if cond == ('bool', True) else out if cond == ('bool', False) else ('ifexp', cond, elt, out)
+                    if okay:
+                        return out
             ft = b(f)
             if ft[0] == 'ext':
                 return ('call', ft[1], args, kwargs)
-            return ('meth', ft, '__call__', args, kwargs)
+            return self._apply(ft, args, kwargs)
         if isinstance(e, (ast.Tuple, ast.List)):
             if any(isinstance(x, ast.Starred) for x in e.elts):
                 return ('opaque', short(e, 60))
@@ -977,6 +1016,21 @@ class TermBuilder(object):
             return ('meth', ('str', template), 'format', tuple(args), ())
         return ('opaque', type(e).__name__ + ':' + short(e, 60))
 
+    def _apply(self, ft, args, kwargs):
+        """Call of a function-valued term: lambdas are beta-reduced, conditional expressions distribute over the call."""
+        if ft[0] == 'lambda' and len(ft[2]) == len(args) and not kwargs:
+            node, env, store, builder = LAMBDAS[ft[1]]
+            env2 = dict(env)
+            env2.update(zip(ft[2], args))
+            return builder._b(nf.canon(node.body), env2, store)
+        if ft[0] == 'ifexp':
+            return ('ifexp', ft[1], self._apply(ft[2], args, kwargs), self._apply(ft[3], args, kwargs))
+        if ft[0] == 'attr' and ft[1] == ('self',):
+            return ('meth', ft[1], ft[2], args, kwargs)          # a bound method of self handed around as a value
+        if ft[0] == 'ext':
+            return ('call', ft[1], args, kwargs)
+        return ('meth', ft, '__call__', args, kwargs)
+
     def _is_local(self, name):
         from .index import local_names
         cur = self.fi
@@ -1026,6 +1080,8 @@ def sym_exec(idx, fi, stmts=None, env=None, store=None, loops='error', max_paths
     of `self.config[...]` writes and of `self.<attr>` writes.  `capture`: dict {id(stmt): None} that is filled with the
     (env, store) in force the first time each listed statement is reached."""
     tb = builder or TermBuilder(idx, fi)
+    if self_cls is not None:
+        tb.self_cls = self_cls
     out = []
 
     def assign(target, value, env, store, effects, stmt):
